@@ -326,8 +326,12 @@ OnRet(m00, e) ==
       mE == Flag(mD, hasx /\ own = 0 /\ fr.traced, "C11", "a collection ran without being counted")
       mF == Flag(mE, hasx /\ own = 1 /\ collOuter, "C12", "a collection started while another one was in progress")
       mG == Flag(mF, hasx /\ ~pan /\ op = "collect" /\ lim = 0 /\ own = 0 /\ m00.lastbf > 0, "C07", "collect_cycles() did not start a collection although objects are buffered")
+      \* with finalization a collection loops until the buffer is empty or ten passes were made; every pass makes at least
+      \* one trace call, so a collection that made fewer than ten cannot have given up: whatever was buffered has been processed
+      mG2 == Flag(mG, m00.cfg.fin /\ hasx /\ ~pan /\ ~m00.faulted /\ op = "collect" /\ lim = 0 /\ own = 1 /\ "walk" \in DOMAIN e /\ Len(e.walk) > 0 /\ fr.ntr < 10,
+                  "C11", ToString(Len(e.walk)) \o " object(s) still buffered after a complete collection (" \o ToString(fr.ntr) \o " trace calls: the pass limit was not reached)")
       \* ---- panic accounting (C07-b/c)
-      mH == Flag(mG, fr.fault /\ ~pan, "C07", "an injected panic was swallowed by " \o op)
+      mH == Flag(mG2, fr.fault /\ ~pan, "C07", "an injected panic was swallowed by " \o op)
       \* "tracing": the debug-build refusal of a Weak::clone attempted by a Trace impl (probe event), which surfaces like a fault
       mI == Flag(mH, fr.fault /\ lim = 0 /\ pan /\ e.panic \notin {"inj", "tracing"}, "C07", "an injected panic was replaced by " \o e.panic)
       \* documented saturation panic: only at the limit, and only from the operations that create a pointer
